@@ -179,7 +179,29 @@ func (c *cache) GoodMinSet(k string, v int, ttl int64) {
 	c.store(k, entry{val: v, exp: c.clock.Now().Add(time.Duration(ttl) * time.Second)})
 }
 
+func (c *cache) GoodSameInstantSet(k string, v int, ttl int64) {
+	if c.maxTTL > 0 && ttl > c.maxTTL {
+		ttl = c.maxTTL
+	}
+	c.store(k, entry{val: v, exp: c.clock.Now().Round(0).Add(time.Duration(ttl) * time.Second).UTC()})
+}
+
 // --- setters: violations ---
+
+func (c *cache) BadTruncatedExpirySet(k string, v int, ttl int64) {
+	if c.maxTTL > 0 && ttl > c.maxTTL {
+		ttl = c.maxTTL
+	}
+	c.store(k, entry{val: v, exp: c.clock.Now().Add(time.Duration(ttl) * time.Second).Truncate(time.Second)})
+}
+
+func (c *cache) BadRoundedBaseSet(k string, v int, ttl int64) {
+	if c.maxTTL > 0 && ttl > c.maxTTL {
+		ttl = c.maxTTL
+	}
+	now := c.clock.Now().Round(time.Second)
+	c.store(k, entry{val: v, exp: now.Add(time.Duration(ttl) * time.Second)})
+}
 
 func (c *cache) BadMinUnguardedSet(k string, v int, ttl int64) {
 	ttl = min(ttl, c.maxTTL)
